@@ -1,6 +1,8 @@
 """C17 - connector endpoints, group extents and freeform bounds obey their geometry."""
 from __future__ import annotations
 
+import os
+
 from .. import ops as O
 from .. import refpkg
 from ..engine import Oracle
@@ -294,6 +296,68 @@ def _group_add(w, deck, a):
         w.stats.hit("c17_group_adds_depth3plus")
 
 
+def g_group_of(r):
+    from .. import gens
+    n = r.choice([1, 2, 3, 4])
+    return dict(O.g_sl(r), path=[r.randint(0, 2) for _ in range(r.randint(0, 3))],
+                members=[{"kind": r.choice(["shape", "picture", "picture", "textbox"]), "x": g_pt(r), "y": g_pt(r), "cx": r.randint(1, 3000000), "cy": r.randint(1, 3000000),
+                          "img": gens.gen_image_recipe(r), "src": O.g_src(r, 0.25)} for _ in range(n)], lazy=r.random() < 0.7)
+
+
+@O.op("c17.group_of", "c17", weight=2.0)
+@O.gen(g_group_of)
+def _group_of(w, deck, a):
+    """add_group_shape(shapes=...): the members are handed over as an iterable - a list of shapes made beforehand, or (the idiom
+    `add_group_shape(add_picture(f) for f in files)`) a generator that creates them while it is consumed and may fail part-way on a
+    read error.  Whatever groups exist afterwards sit on their member box."""
+    from pptx.enum.shapes import MSO_SHAPE
+    from .. import gens
+    sl = O.nav_slide(w, deck, a)
+    chain, shapes = _descend(sl, a["path"])
+    if sum(1 for _ in O.walk_shapes(sl.shapes)) >= 36:
+        raise O.Skip("max shapes")
+    known = {s.shape_id for s in O.walk_shapes(sl.shapes) if type(s).__name__ == "GroupShape"}
+
+    def make(mb):
+        if mb["kind"] == "shape":
+            return shapes.add_shape(MSO_SHAPE.RECTANGLE, mb["x"], mb["y"], mb["cx"], mb["cy"])
+        if mb["kind"] == "textbox":
+            return shapes.add_textbox(mb["x"], mb["y"], mb["cx"], mb["cy"])
+        f, tmp = O._source_arg(w, gens.image_bytes(mb["img"]), {"src": mb["src"]}, fname="c17.png")
+        try:
+            return shapes.add_picture(f, mb["x"], mb["y"])
+        finally:
+            if tmp and os.path.exists(tmp):
+                os.unlink(tmp)
+
+    failed = None
+    try:
+        if a["lazy"]:
+            shapes.add_group_shape(make(mb) for mb in a["members"])
+        else:
+            shapes.add_group_shape([make(mb) for mb in a["members"]])
+    except OSError as e:
+        failed = e
+        w.stats.hit("c17_group_of_failed_part_way")
+    # every group that exists now and did not before, and every group on the path, is judged
+    def walk(coll, d):
+        for s_ in coll:
+            if type(s_).__name__ == "GroupShape":
+                if s_.shape_id not in known and list(s_.shapes):
+                    verify_group(w, sl, s_, "after-group-of%s" % ("-failed-part-way" if failed else ""), d)
+                    _mark(deck, sl, [s_], True)
+                walk(s_.shapes, d + 1)
+    walk(sl.shapes, 1)
+    if failed is None:
+        for d, g in reversed(list(enumerate(chain))):
+            verify_group(w, sl, g, "after-group-of", d + 1)
+        _mark(deck, sl, chain, True)
+    else:
+        _mark(deck, sl, chain, False)     # members were added to the enclosing groups but the call did not complete
+        return "iofault:%s" % type(failed).__name__
+    w.stats.hit("c17_group_of")
+
+
 def g_group_move(r):
     return dict(O.g_sl(r), path=[r.randint(0, 2) for _ in range(r.randint(1, 4))], attr=r.choice(["left", "top", "width", "height"]), v=g_pt(r),
                 inside=r.random() < 0.7, img=None)
@@ -523,6 +587,17 @@ def pinned_traces(tier):
         evs.append({"op": "c17.group_move", "slide": 0, "path": [0], "attr": attr, "v": v + 11, "inside": True})
     evs += [{"op": "checkpoint", "sink": "seekable"}, {"op": "restart"}]
     out.append({"property": ID, "seed": "moved-group-then-add-inside-box", "tier": "pinned", "config": {"pinned": True}, "start": [{"deck": "default"}], "events": evs})
+    # members handed to add_group_shape as an iterable that fails part-way (second picture unreadable), eager and lazy, top level and nested
+    ok_src, bad_src = {"via": "stream", "pos": 0}, {"via": "stream", "pos": 0, "fault": {"kind": "eio", "at": 1}}
+    mk = lambda kind, x, src: {"kind": kind, "x": x, "y": x // 2, "cx": 400000, "cy": 300000, "img": img, "src": src}  # noqa: E731
+    evs = [{"op": "add_slide", "layout": 6}, dict(base, op="c17.group_add", slide=0, path=[], kind="subgroup"), dict(base, op="c17.group_add", slide=0, path=[0], kind="shape", x=3000000, y=3000000)]
+    for lazy in (False, True):
+        for path in ([], [0]):
+            evs.append({"op": "c17.group_of", "slide": 0, "path": path, "lazy": lazy, "members": [mk("picture", 1000000, ok_src), mk("shape", 2000000, ok_src), mk("picture", 5000000, ok_src)]})
+            evs.append({"op": "c17.group_of", "slide": 0, "path": path, "lazy": lazy, "members": [mk("picture", 1500000, ok_src), mk("picture", 2500000, bad_src), mk("shape", 4000000, ok_src)]})
+            evs.append({"op": "c17.group_of", "slide": 0, "path": path, "lazy": lazy, "members": [mk("picture", 700000, {"via": "path", "fname": "gone.png", "fault": {"kind": "missing"}})]})
+    evs += [{"op": "checkpoint", "sink": "seekable"}, {"op": "restart"}]
+    out.append({"property": ID, "seed": "group-of-iterable-failing-part-way", "tier": "pinned", "config": {"pinned": True}, "start": [{"deck": "default"}], "events": evs})
     for dk in ("f-shp-common-props.pptx", "f-shp-groupshape.pptx", "f-shp-shapes.pptx"):
         evs = []
         for sl_ in range(3):
